@@ -25,6 +25,11 @@ def x_obligations(tier):
         o.append(Obl(f"C05-inj[{a[0]!r}+{a[1]}+{a[2]!r} | {b[0]!r}+{b[1]}+{b[2]!r}]", M, "injective",
                      env={"VF_PRE": a[0], "VF_N": str(a[1]), "VF_SUF": a[2], "VF_PRE2": b[0], "VF_SUF2": b[2]}, timeout=T, path_timeout=200, family="C05-inj",
                      bound="two symbolic Sids of the same / sibling file types"))
+    ship = [("hamlet/a/char/", 1, "/model/v001/w/ma"), ("hamlet/a/char/x_", 1, "/rig/v002/p/mov"), ("hamlet/s/sq01", 1, "/sh0010/anim/v001/w/ma")]
+    for pre, n, suf in ship:
+        for cfg in ("local", "server"):
+            o.append(Obl(f"C05-rt[shipped,{cfg},{pre!r}+{n}+{suf!r}]", M, "roundtrip", env={"VF_CONF": "shipped", "VF_PRE": pre, "VF_N": str(n), "VF_SUF": suf, "VF_CONFIG": cfg}, timeout=T, path_timeout=300, family="C05-shipped",
+                         bound=f"shipped configuration {cfg}: Sid({pre!r}+c+{suf!r}), c one symbolic character"))
     o.append(Obl("C05-reach", M, "reach", env={"VF_N": "1", "VF_PRE": "h/a/", "VF_SUF": "/v1/m"}, timeout=150, expect="refute", family="C05-twin"))
     return o
 
